@@ -1,5 +1,6 @@
 import QuantemModel.Core.Proto
 import QuantemModel.Model.Unwrap
+import QuantemModel.Model.UnwrapSession
 open Lean QuantemModel QuantemModel.Proto QuantemModel.Unwrap
 
 /-! JSON-lines driver for C17 (Model/Unwrap.lean run at `Rat`, `half = 1`: phases in units of π).
@@ -55,6 +56,46 @@ def isPermPairs (order ref : List (Nat × Nat)) : Bool :=
   (order.mergeSort pairLe) == (ref.mergeSort pairLe)
 
 def half : Rat := 1
+
+def errName : PyErr → String
+  | .valueError => "ValueError" | .notImplementedError => "NotImplementedError"
+  | .indexError => "IndexError" | .runtimeError => "RuntimeError"
+
+def methodOf (s : String) : Method :=
+  if s == "reliability-sorting" then .reliabilitySorting else if s == "poisson" then .poisson else .other
+
+def branchName : BfBranch → String
+  | .noMask => "noMask" | .smallRange => "smallRange" | .onePass => "onePass" | .twoPass => "twoPass"
+
+/-- one call of `unwrap_phase_2d_torch` from JSON: method (string), phi_shape, phi (flat, rationals in units of π),
+mask_shape / mask (null = no mask), wrap, order (null = the model sorts itself) -/
+def callOfJson (j : Json) : Except String (Call Rat) := do
+  let meth ← strField j "method"
+  let shape ← natList (← field j "phi_shape")
+  let phiA ← ratArr (← field j "phi")
+  let wrap ← boolField j "wrap"
+  let mask ← match fieldD j "mask" Json.null with
+    | .null => pure none
+    | m => do
+      let vals ← boolArr m
+      let ms ← natList (← field j "mask_shape")
+      pure (some ({ shape := ms, vals := vals.toList } : MaskArg))
+  let order ← match fieldD j "order" Json.null with
+    | .null => pure none
+    | o => do pure (some (← pairList o))
+  pure { method := methodOf meth, phiShape := shape, phi := fun i => phiA.getD i 0, mask := mask, wrap := wrap, order := order }
+
+def outcomeJ (c : Call Rat) (o : Outcome Rat) : Json :=
+  match o with
+  | .raised e => Json.mkObj [("raised", Json.str (errName e))]
+  | .poisson => Json.mkObj [("poisson", Json.bool true)]
+  | .diverged => Json.mkObj [("diverged", Json.bool true)]
+  | .unwrapped out =>
+    -- also report whether a given order is a permutation of the masked neighbour pairs
+    let perm := match c.order, validateWorker c.phiShape c.mask c.wrap with
+      | some o, .ok (H, W, m) => isPermPairs o (maskedPairs H W m c.wrap)
+      | _, _ => true
+    Json.mkObj [("out", Json.arr (out.map ratToJson).toArray), ("perm", Json.bool perm)]
 
 def step (_ : Unit) (j : Json) : Unit × Json :=
   match (do
@@ -155,6 +196,47 @@ def step (_ : Unit) (j : Json) : Unit × Json :=
             let p1 := (br != .onePass && br != .twoPass) || isPermPairs o1 ref
             let p2 := (br != .twoPass) || isPermPairs o2 ref
             pure (okJson (Json.mkObj [("branch", Json.str b), ("perm1", Json.bool p1), ("perm2", Json.bool p2),
+                                      ("out", Json.arr (out.map ratToJson).toArray)]))
+    | "session" =>
+        -- a history of calls on the module (valid and rejected ones): one outcome per call
+        let callsJ ← arrField j "calls"
+        let calls ← callsJ.toList.mapM callOfJson
+        let outs := runSession half wrapToPiRat calls
+        pure (okJson (Json.arr ((calls.zip outs).map fun co => outcomeJ co.1 co.2).toArray))
+    | "uf_hist" =>
+        -- a history of `union` calls on one object, indices past the end included (those raise, nothing written)
+        let N ← natField j "N"
+        let es ← edgeList (← field j "edges")
+        match ufHistory (UF.init N) es with
+        | none => pure (errJson "NonTermination")
+        | some (u, flags) =>
+          match finalOffsets u with
+          | none => pure (errJson "NonTermination")
+          | some incs =>
+            pure (okJson (Json.mkObj [
+              ("raised", Json.arr (flags.map Json.bool).toArray),
+              ("parent", Json.arr (u.parent.map natJ)),
+              ("rank", Json.arr (u.rank.map natJ)),
+              ("offset", Json.arr (u.offset.map intJ)),
+              ("incs", Json.arr (incs.map intJ).toArray)]))
+    | "bfm" =>
+        -- `unwrap_bf_overlap_phase_torch` with its argument handling (value lengths, lazy `method`)
+        let H ← natField j "H"; let W ← natField j "W"
+        let bfA ← boolArr (← field j "bf_mask")
+        let maskBf ← boolArr (← field j "mask_bf")
+        let phase ← ratArr (← field j "phase")
+        let two ← boolField j "two_pass"
+        let o1 ← pairList (← field j "order1")
+        let o2 ← pairList (← field j "order2")
+        let wrap ← boolField j "wrap"
+        let meth ← strField j "method"
+        let bfm : Nat → Bool := fun i => bfA.getD i false
+        match unwrapBfOverlapM half (methodOf meth) H W bfm maskBf.toList phase.toList two wrap o1 o2 with
+        | .raised e => pure (okJson (Json.mkObj [("raised", Json.str (errName e))]))
+        | .poisson => pure (okJson (Json.mkObj [("poisson", Json.bool true)]))
+        | .diverged => pure (errJson "NonTermination")
+        | .result br out =>
+            pure (okJson (Json.mkObj [("branch", Json.str (branchName br)),
                                       ("out", Json.arr (out.map ratToJson).toArray)]))
     | _ => throw s!"unknown op {op}" : Except String Json) with
   | .ok r => ((), r)
